@@ -13,7 +13,7 @@
  R14.6 the async reader obeys R14.2–R14.4 as well.
 """
 import os
-from ..terms import get_tracer, short, walk
+from ..terms import get_tracer, short, walk, fmt
 from ..pathflow import World
 from ..panics import Discharger, load_records, norm
 from ..handlerules import Handles
@@ -52,6 +52,23 @@ def handed_out(facts, rep, w, D):
                 n += 1
                 rep.ob("R14.1", b.id, "%s hands out a std handle or a crate handle struct" % op, ok, "" if ok else
                        "returns %s" % str(v)[:80], b.span)
+    # the embedded backend serves every file — the empty ones too — as a Cursor over the embedded bytes (io::empty() reads the same
+    # but answers Ok(0) to every seek: no error before the start, no position past the end)
+    if not w.asyncw:
+        for b in facts.bodies:
+            if b.kind != "Closure" and b.name == "open_file" and b.impl and b.impl["self_ty"].startswith("impls::embedded::EmbeddedFS") and \
+                    (b.impl.get("trait") or "").endswith("FileSystem"):
+                for ct, _, bb in inter.ret_cases(b):
+                    if inter.case_polarity(ct) != "ok":
+                        continue
+                    x = norm(ct[3][0][1]) if ct[0] == "agg" and ct[3] else norm(ct)
+                    while x[0] in ("okval", "await") or (x[0] == "call" and x[1] in ("Box::new",) and x[2]):
+                        x = x[1] if x[0] in ("okval", "await") else norm(x[2][0])
+                    ok = x[0] == "call" and x[1] == "Cursor::new" and x[2] and any(y[0] == "field" and y[2] == "data" for y in walk(x[2][0]))
+                    n += 1
+                    rep.ob("R14.1", b.id, "embedded open_file hands out a Cursor over the embedded file's data", ok, "" if ok else
+                           "returns %s: a reader that is not a cursor over the file's bytes (seek errors and positions differ)" % fmt(x)[:60],
+                           inter.code_body(b).blocks[bb].term.line)
     return n
 
 
